@@ -210,7 +210,9 @@ fn gen_d(r: &mut Rng) -> D {
 /// character inside markup-looking text (that is the separately labelled sub-family) and not the
 /// closing tag itself
 fn gen_raw_body(r: &mut Rng) -> String {
-    let atoms = ["x", " ", "\n", "\t", "\r\n", "\r", "{{ x -}}", "{% y -%}", "{{ a }}", "{% if b %}", "{%- assign q = 1 -%}", "{{", "{%", "}}", "%}", "{{ a | upcase", "{% endif %}", "{% raw %}", "é", "{", "}", "  ", "{{- 1 -}}", "{% comment %}", "\u{a0}"];
+    let atoms = ["x", " ", "\n", "\t", "\r\n", "\r", "{{ x -}}", "{% y -%}", "{{ a }}", "{% if b %}", "{%- assign q = 1 -%}", "{{", "{%", "}}", "%}", "{{ a | upcase", "{% endif %}", "{% raw %}", "é", "{", "}", "  ", "{{- 1 -}}", "{% comment %}", "\u{a0}",
+        // closing-tag look-alikes (a closing tag carrying arguments is body text) and white space the grammar treats as text
+        "{% endraw x %}", "{%- endraw , -%}", "{% endraw 1 %}", "{% endrawx %}", "{{ endraw }}", "\u{2003}", "\u{3000}", "\u{2028}", "\u{85}", "\u{c}", "\u{b}", "\u{feff}"];
     let n = r.below(6);
     (0..n).map(|_| r.choose(&atoms)).collect()
 }
